@@ -19,7 +19,14 @@ import (
 const (
 	KindH264 = "h264"
 	KindAAC  = "aac"
+	KindH265 = "h265"
+	KindAV1  = "av1"
 )
+
+// IsVideoKind tells whether a track kind is a video one.
+func IsVideoKind(k string) bool {
+	return k == KindH264 || k == KindH265 || k == KindAV1
+}
 
 // TrackSpec describes one track of a history.
 type TrackSpec struct {
@@ -35,6 +42,11 @@ type UnitSpec struct {
 	NTPns int64 `json:"ntp"`   // absolute time, unix ns
 	IDR   bool  `json:"idr"`   // random access (always true for audio)
 	Size  int   `json:"size"`  // payload filler size
+	// Params is the generation of the in-band codec parameters in force at this unit (video
+	// only): a random-access unit carries the parameter sets of its generation, so that a unit
+	// whose generation differs from the previous one's changes the parameters in the middle of
+	// the stream (see params.go). 0 = the parameters every history used before.
+	Params int `json:"params,omitempty"`
 }
 
 // Session is one publisher session: a fresh Stream and a fresh Recorder (a new stream id).
@@ -101,6 +113,11 @@ type SessionOpts struct {
 	AudioSkew   time.Duration // audio timestamps (PTS and absolute time) are this much ahead of the arrival order (A/V skew)
 	VideoSize   int
 	AudioSize   int
+	// VideoKind is the codec of the video track (KindH264 when empty)
+	VideoKind string
+	// ParamChangeAt lists indices of video units, each of them a random-access one, at which
+	// the encoder switches to other in-band codec parameters (the next generation)
+	ParamChangeAt []int
 }
 
 // Build generates a session: units are interleaved in timestamp order (video first on ties;
@@ -114,7 +131,11 @@ func (b *Builder) Build(o SessionOpts) Session {
 	}
 	if o.Video {
 		vi = len(s.Tracks)
-		s.Tracks = append(s.Tracks, TrackSpec{Kind: KindH264, ClockRate: 90000})
+		vk := o.VideoKind
+		if vk == "" {
+			vk = KindH264
+		}
+		s.Tracks = append(s.Tracks, TrackSpec{Kind: vk, ClockRate: 90000})
 	}
 	if o.Audio {
 		ai = len(s.Tracks)
@@ -129,7 +150,16 @@ func (b *Builder) Build(o SessionOpts) Session {
 		for i := 0; i < o.VideoCount; i++ {
 			t := o.PTS0 + time.Duration(i)*o.VideoPeriod
 			idr := i >= o.FirstIDR && (i-o.FirstIDR)%o.GOP == 0
-			evs = append(evs, ev{t, UnitSpec{Track: vi, PTS: int64(t) * 90000 / int64(time.Second), IDR: idr, Size: o.VideoSize}})
+			gen := 0
+			for _, at := range o.ParamChangeAt {
+				if at == i && !idr {
+					panic(fmt.Sprintf("reclib: parameter change at video unit %d, which is not a random-access one", i))
+				}
+				if at <= i {
+					gen++
+				}
+			}
+			evs = append(evs, ev{t, UnitSpec{Track: vi, PTS: int64(t) * 90000 / int64(time.Second), IDR: idr, Size: o.VideoSize, Params: gen}})
 		}
 	}
 	if o.Audio {
